@@ -40,8 +40,7 @@ import (
 var (
 	rxPunctuation      = regexp.MustCompile(`\s+([.?!,;])\s*(\S*)`)
 	rxTempNewline      = regexp.MustCompile(`\s*\|\\/\|\s*`)
-	rxDisplay          = regexp.MustCompile(`(?i)display:\s*([\w-]+)\s*(?:!\s*important\s*)?(?:;|$)`)
-	rxVisibilityHidden = regexp.MustCompile(`(?i)visibility:\s*(:?hidden|collapse)`)
+	rxCSSComment       = regexp.MustCompile(`(?s)/\*.*?\*/`)
 	rxSrcsetURL        = regexp.MustCompile(`(?i)(\S+)(\s+[\d.]+[xw])?(\s*(?:,|$))`)
 
 	elementWithSizeAttr = map[string]struct{}{
@@ -492,7 +491,7 @@ func IsProbablyVisible(node *html.Node) bool {
 	}
 
 	displayStyle := GetDisplayStyle(node)
-	styleAttr := dom.GetAttribute(node, "style")
+	visibility := getInlineStyleValue(dom.GetAttribute(node, "style"), "visibility")
 	nodeAriaHidden := dom.GetAttribute(node, "aria-hidden")
 	className := dom.GetAttribute(node, "class")
 
@@ -501,18 +500,51 @@ func IsProbablyVisible(node *html.Node) bool {
 	// Wikimedia Math images are displayed
 	return displayStyle != "none" &&
 		!dom.HasAttribute(node, "hidden") &&
-		!rxVisibilityHidden.MatchString(styleAttr) &&
+		visibility != "hidden" && visibility != "collapse" &&
 		(nodeAriaHidden == "" || nodeAriaHidden != "true" || strings.Contains(className, "fallback-image"))
+}
+
+// getInlineStyleValue returns the first word (lower-cased) of the value that an
+// inline style gives to the property, or an empty string if it doesn't declare it.
+// As in CSS the last declaration wins unless an earlier one is !important, white
+// space and comments may surround names and values, and the property name has to
+// match as a whole (so "backface-visibility" is not "visibility").
+func getInlineStyleValue(style, property string) string {
+	if style == "" {
+		return ""
+	}
+
+	var value string
+	var important bool
+	style = rxCSSComment.ReplaceAllString(style, " ")
+	for _, declaration := range strings.Split(style, ";") {
+		name, val, found := strings.Cut(declaration, ":")
+		if !found || strings.ToLower(strings.TrimSpace(name)) != property {
+			continue
+		}
+
+		val = strings.ToLower(strings.TrimSpace(val))
+		isImportant := false
+		if idx := strings.Index(val, "!"); idx >= 0 {
+			isImportant = strings.TrimSpace(val[idx+1:]) == "important"
+			val = strings.TrimSpace(val[:idx])
+		}
+
+		if fields := strings.Fields(val); len(fields) > 0 && (isImportant || !important) {
+			value = fields[0]
+			important = important || isImportant
+		}
+	}
+
+	return value
 }
 
 // GetDisplayStyle returns the default "display" in style property for the specified node.
 func GetDisplayStyle(node *html.Node) string {
 	// Check if display specified in inline style
 	style := dom.GetAttribute(node, "style")
-	parts := rxDisplay.FindStringSubmatch(style)
-	if len(parts) >= 2 {
-		// CSS keywords are case-insensitive
-		return strings.ToLower(parts[1])
+	if display := getInlineStyleValue(style, "display"); display != "" {
+		return display
 	}
 
 	// Use default display
